@@ -27,7 +27,9 @@ import (
 // request by GetSequenceID. History oracle: exactly-once pairing, response
 // type, sequence words and command id in the encoded header.
 
-const dispatchIDs = 0x120 * 2
+// per dispatcher: ids 0..0x11f, 0x80000000..0x8000011f, and dispatchVariants derived ids for up to 16 defined ids
+const dispatchVariants = 10
+const dispatchIDs = 0x120*2 + 16*dispatchVariants
 
 func init() {
 	Register(&Scenario{
@@ -585,7 +587,39 @@ func runDispatchIDs(r *core.Run) {
 	proto := sp.Protos[int(r.Cfg.Index/dispatchIDs)%len(sp.Protos)]
 	k := uint32(r.Cfg.Index % dispatchIDs)
 	id := k
-	if k >= 0x120 {
+	switch {
+	case k >= 0x240:
+		// ids derived from the defined ones the way a confused peer would derive them: octets reversed, shifted by
+		// one to three octets, rotated, the response bit in another place, another bit set
+		j := int(k - 0x240)
+		var defined []uint32
+		for _, p := range proto.PDUs {
+			defined = append(defined, p.IDs...)
+		}
+		x := defined[(j/dispatchVariants)%len(defined)]
+		switch j % dispatchVariants {
+		case 0:
+			id = x<<24 | (x<<8)&0xff0000 | (x>>8)&0xff00 | x>>24
+		case 1:
+			id = x << 8
+		case 2:
+			id = x << 16
+		case 3:
+			id = x << 24
+		case 4:
+			id = x<<1 | x>>31
+		case 5:
+			id = x ^ 0x40000000
+		case 6:
+			id = x&0x7fffffff | (x>>31)<<30
+		case 7:
+			id = x | 0x00010000
+		case 8:
+			id = x | 0x00000100
+		default:
+			id = x ^ 0x80000000 ^ 0x01000000
+		}
+	case k >= 0x120:
 		id = 0x80000000 | (k - 0x120)
 	}
 	pd := proto.ByID(id)
